@@ -132,7 +132,14 @@ void judge_refinement(hep::vegas_pdf<T> const& old_pdf, T alpha, std::vector<T> 
         for (std::size_t b = 0; b < bins; ++b) dd[b] = data[d * bins + b];
         bool zero;
         std::vector<LD> imp = vegas_importance(dd, alpha, zero);
-        if (zero) { count("dims_all_zero_unjudged"); continue; }
+        if (zero)
+        {
+            // a dimension without information keeps its bins (the all-zero clause, per dimension)
+            count("dims_without_information_checked_unchanged");
+            for (std::size_t b = 0; b <= bins; ++b)
+                if (!same_bits(old_pdf.bin_left(d, b), np.bin_left(d, b))) { viol("zero-data-changed-grid:single-dimension", J(info).u("dim", d).u("boundary", b)); break; }
+            continue;
+        }
         if (vegas_min_share(dd) < (LD)std::numeric_limits<T>::min() * 64) { count("dims_underflow_prone_unjudged"); continue; }
         {
             LD sum = 0;
@@ -183,8 +190,10 @@ void direct(Rng& rng)
         for (std::size_t d = 0; d < dims; ++d)
         {
             bool constant;
-            std::vector<T> dd = zero_iter ? std::vector<T>(bins, T()) : make_data_dim(rng, bins, dk, constant);
-            if (zero_iter) { dk = "all-zero"; constant = true; }
+            // besides whole all-zero iterations: single dimensions without any information next to dimensions with data
+            bool zero_dim = zero_iter || (dims >= 2 && rng.below(8) == 0);
+            std::vector<T> dd = zero_dim ? std::vector<T>(bins, T()) : make_data_dim(rng, bins, dk, constant);
+            if (zero_dim) { dk = "all-zero"; constant = true; }
             all_const = all_const && constant;
             kinds += (d ? "," : "") + dk;
             data.insert(data.end(), dd.begin(), dd.end());
@@ -347,7 +356,7 @@ void in_run_mpi(Rng& rng)
     std::size_t bins = bin_choices[rng.below(5)];
     std::size_t dims = rng.range(1, 2);
     int P = int(rng.range(2, 5));
-    T alpha = rng.below(2) ? T(1.5) : T(3 * rng.u01l());
+    T alpha = rng.below(2) ? T(1.5) : rng.below(4) == 0 ? T(0) : T(3 * rng.u01l());
     int shape = rng.below(3) ? 4 : int(rng.below(4));
     T width = shape == 4 ? T(0.03L + 0.25L * rng.u01l()) : std::ldexp(T(1), -int(rng.range(2, 8)));
     T centre = T(rng.u01l());
@@ -416,10 +425,11 @@ void in_run(Rng& rng, bool scripted)
     static const std::size_t bin_choices[] = {2, 3, 5, 8, 16, 32, 128, 37, 100};
     std::size_t bins = bin_choices[rng.below(9)];
     std::size_t dims = rng.range(1, 3);
-    T alpha = rng.below(2) ? T(1.5) : T(3 * rng.u01l());
+    T alpha = rng.below(2) ? T(1.5) : rng.below(4) == 0 ? T(0) : T(3 * rng.u01l());
     RunState r;
-    r.shape = rng.below(4);
+    r.shape = rng.below(5);
     r.width = std::ldexp(T(1), -int(rng.range(2, 13)));
+    if (r.shape == 4) r.width = T(0.03L + 0.25L * rng.u01l());
     r.centre = T(rng.u01l());
     std::size_t iters = scripted ? 3 : rng.range(2, ctx().thorough ? 30 : 8);
     std::size_t calls = scripted ? 0 : rng.range(200, 2000);
